@@ -97,8 +97,8 @@ func (valdec byteArrayDecoder) Decode(dec *Decoder, p interface{}, tag byte) {
 	switch tag {
 	case TagBytes:
 		data := dec.UnsafeNext(dec.ReadInt())
+		valdec.copy(p, data) // before Skip: skipping may refill the buffer that data aliases
 		dec.Skip()
-		valdec.copy(p, data)
 		dec.AddReference(p)
 	case TagUTF8Char:
 		data, _ := dec.readStringAsBytes(1)
@@ -106,8 +106,8 @@ func (valdec byteArrayDecoder) Decode(dec *Decoder, p interface{}, tag byte) {
 	case TagString:
 		if dec.IsSimple() {
 			data, _ := dec.readStringAsBytes(dec.ReadInt())
+			valdec.copy(p, data) // before Skip: skipping may refill the buffer that data aliases
 			dec.Skip()
-			valdec.copy(p, data)
 		} else {
 			valdec.copy(p, convert.ToUnsafeBytes(dec.ReadString()))
 		}
